@@ -407,6 +407,7 @@ type recorder struct {
 	// gating
 	targets map[string]*target // class -> target
 	arrived chan string
+	missed  chan string // a goroutine finished its writer round without passing its gate
 	release chan struct{}
 	hit     map[string]bool
 	drift   []string
@@ -430,6 +431,7 @@ func (r *recorder) begin(w *world, base string, targets map[string]*target) {
 	r.targets = targets
 	r.hit = map[string]bool{}
 	r.arrived = make(chan string, 4)
+	r.missed = make(chan string, 4)
 	r.release = make(chan struct{})
 }
 
@@ -556,15 +558,33 @@ func (r *recorder) on(ev, path string, height, n int) {
 	r.evs = append(r.evs, e)
 	// gate?
 	var wait chan struct{}
-	if t := r.targets[cls]; t != nil && !r.hit[cls] && matches(t, &e) {
-		r.hit[cls] = true
-		wait = r.release
-		r.arrived <- cls
+	if t := r.targets[cls]; t != nil && !r.hit[cls] {
+		if matches(t, &e) {
+			r.hit[cls] = true
+			wait = r.release
+			r.arrived <- cls
+		} else if passed(t, &e) {
+			r.hit[cls] = true
+			r.missed <- fmt.Sprintf("%s goroutine reached %s (round %d) without passing %s#%d", cls, e.Ev, e.Round, t.Action, t.Round)
+		}
 	}
 	r.mu.Unlock()
 	if wait != nil {
 		<-wait
 	}
+}
+
+// passed: the writer this gate is in has ended its round (closed the file, or found it existing)
+// without the gate's marker having occurred: the gate can no longer be reached. Without this the
+// other goroutine, already held at its gate, would keep the operation from ever finishing.
+func passed(t *target, e *event) bool {
+	if !odsActions[t.Action] && !strings.HasPrefix(t.Action, "Q4") {
+		return false
+	}
+	if e.Round < t.Round {
+		return false
+	}
+	return e.Ev == "ods.closed" || e.Ev == "ods.create.err" || e.Ev == "q4.closed" || e.Ev == "q4.create.err"
 }
 
 // matches: is e the marker of the model action t.Action (in round t.Round)?
